@@ -662,14 +662,7 @@ private:
         std::unique_lock lk(G);
         pt[t] = p.parked ? p.point : 0;
       }
-      acquired(t);
     }
-  }
-
-  void acquired(int t)
-  {
-    // bookkeeping when thread t has entered its critical section (point pt[t])
-    (void)t;
   }
 
   void start(int t, bool probe)
@@ -750,18 +743,13 @@ private:
   bool finished(int t) { std::unique_lock lk(G); return !ws[t]->has_cmd; }
   std::string result(int t) { std::unique_lock lk(G); return ws[t]->result; }
 
-  // thread t has just arrived somewhere after a transition that did not start from a park inside
-  // a critical section (start of an operation, wake-up): if the operation already finished, close it
+  // an operation that has no scheduling point at all would be finished on arrival
   void after_arrival(int t)
   {
-    if (finished(t)) finish(t, -1);
+    if (finished(t)) finish(t);
   }
 
-  void finish(int t, int from)
-  {
-    (void)from;
-    active[t] = false; pt[t] = 0;
-  }
+  void finish(int t) { active[t] = false; pt[t] = 0; }
 
   void step(int t, bool probe)
   {
@@ -863,7 +851,7 @@ private:
       break;
     default: break;
     }
-    if (fin) finish(t, from);
+    if (fin) finish(t);
   }
 
   void drain()
